@@ -303,6 +303,7 @@ func cmdCheck(args []string) {
 	fmt.Printf("%s: %d named obligations (%d instances) over %d functions, %d discharged, %d violations, %d known findings, %.1fs\n",
 		prop, len(groups), len(obls), nFuncs, discharged, violations, knownMatched, time.Since(start).Seconds())
 	if violations > 0 {
+		os.RemoveAll(workdir)
 		os.Exit(1)
 	}
 }
